@@ -44,7 +44,7 @@ var scenarios = []scenario{
 
 const (
 	deadline    = 150 * time.Second
-	quietWindow = 20 * time.Second
+	quietWindow = 180 * time.Second
 )
 
 func run(c *core.Case) {
@@ -190,7 +190,11 @@ func run(c *core.Case) {
 	}()
 	progress := func() string {
 		defer func() { _ = recover() }()
-		return fmt.Sprintf("done=%d inflight=%d", completed.Load(), inflight.Load())
+		// engine-side progress too: a write stall that ends when the compaction
+		// picker finally drains the ingest buffer (its score rises with the age of
+		// the oldest ingest table, ~60s) is slow, not stuck.
+		_, _, runs := db.VerifLSM().CompactionDurations()
+		return fmt.Sprintf("done=%d inflight=%d compaction_runs=%d layout=%s flush_pending=%d", completed.Load(), inflight.Load(), runs, dbx.LayoutShape(db), db.VerifLSM().FlushPending())
 	}
 	select {
 	case <-finished:
@@ -247,7 +251,7 @@ func init() {
 		Level: "exploration",
 		Race:  false,
 		Rule: "case = one stress scenario {commit-queue saturation with 1500 writers, L0 throttle toggling (NumLevelZeroTables=1, 8KiB memtable), hot-key throttling, Close in mid-stream, transactional commits under throttling, transactional Close in mid-stream} x memtable engine; every Set/Del/Get/iterator/commit/Close call and calls issued after Close must return; " +
-			"verdict: all calls returned (outcome classes counted) = held; still running after 150s but other calls keep completing = inconclusive; still running and nothing completes during a further 20s window = violation; distinct = (scenario, engine, case)",
+			"verdict: all calls returned (outcome classes counted) = held; still running after 150s but other calls keep completing = inconclusive; still running and nothing completes during a further 180s window (no call completes, no compaction run, no layout change, flush queue unchanged) = violation; distinct = (scenario, engine, case)",
 		Assumptions:      []string{"liveness is restated as bounded progress: an unbounded 'eventually' cannot be decided by a finite run", "a recovered panic counts as 'returned' (the statement is about termination); process-fatal errors are violations"},
 		CrashIsViolation: true,
 		Parallel:         1,
